@@ -240,7 +240,8 @@ impl Broker {
 
     /// Produce the packet for `e`. `variant` picks among the legal forms (0 = default).
     /// For CONNACK, `variant` is interpreted by `connack`.
-    pub fn emit(&mut self, e: &Emit, fail: bool) -> SPacket {
+    pub fn emit(&mut self, e: &Emit, variant: u8) -> SPacket {
+        let fail = variant == 1;
         match e {
             Emit::Script => {
                 let m = self.cfg.script[self.script_next].clone();
@@ -265,6 +266,8 @@ impl Broker {
                                 AckKind::PubComp | AckKind::PubRel => 0x92,
                                 _ => 0x80,
                             }
+                        } else if variant == 2 && matches!(kind, AckKind::PubAck | AckKind::PubRec) && reason == 0 {
+                            0x10 // "no matching subscribers": a success
                         } else {
                             reason
                         };
@@ -306,6 +309,20 @@ impl Broker {
                     ..
                 } | Owed::SubAck { .. }
                     | Owed::UnsubAck { .. }
+            ),
+            _ => false,
+        }
+    }
+
+    pub fn can_succeed_nonzero(&self, e: &Emit) -> bool {
+        match e {
+            Emit::Owed(i) => matches!(
+                self.owed[*i],
+                Owed::Ack {
+                    kind: AckKind::PubAck | AckKind::PubRec,
+                    reason: 0,
+                    ..
+                }
             ),
             _ => false,
         }
